@@ -86,7 +86,7 @@ func ruleC03Emit(c *Checker) {
 				})
 				var dom []Edge
 				for _, de := range isDirT {
-					if de.To() == e.Call.Block() || de.To().Dominates(e.Call.Block()) {
+					if de.To() == e.Call.Block() || blockDominates(de.To(), e.Call.Block()) {
 						dom = append(dom, de)
 					}
 				}
@@ -480,7 +480,7 @@ func ruleC03Glob(c *Checker) {
 		// at a loop header (a predecessor it dominates), and concatenated onto inside the loop
 		hdr := false
 		for _, pr := range ph.Block().Preds {
-			if ph.Block().Dominates(pr) {
+			if blockDominates(ph.Block(), pr) {
 				hdr = true
 			}
 		}
@@ -635,10 +635,10 @@ func ruleC03Glob(c *Checker) {
 			return
 		}
 		// the first Next reached from the loop header on every iteration is the primary one
-		if primary == nil && cl.Block().Dominates(cl.Block()) {
+		if primary == nil && blockDominates(cl.Block(), cl.Block()) {
 			dom := true
 			for _, pr := range loopHead.Preds {
-				if loopHead.Dominates(pr) && !cl.Block().Dominates(pr) {
+				if blockDominates(loopHead, pr) && !blockDominates(cl.Block(), pr) {
 					dom = false
 				}
 			}
@@ -1284,9 +1284,9 @@ func (p *Prog) sliceWithControl(v ssa.Value) map[ssa.Value]bool {
 			if !ok || depth > 4 {
 				continue
 			}
-			stop := ph.Block().Idom()
+			stop := idomOf(ph.Block())
 			for _, pr := range ph.Block().Preds {
-				for b := pr; b != nil && b != stop; b = b.Idom() {
+				for b := pr; b != nil && b != stop; b = idomOf(b) {
 					if ifi, ok := b.Instrs[len(b.Instrs)-1].(*ssa.If); ok {
 						add(ifi.Cond, depth+1)
 					}
